@@ -40,6 +40,7 @@ func (n *Notifier) SubscribeContext(ctx context.Context, key any, target any) {
 
 	verifAt("notifier.sub.lock", n, 0)
 	n.mutex.Lock()
+	verifAt("notifier.sub.locked", n, 0)
 	defer n.mutex.Unlock()
 
 	subscribers := n.subscribers
@@ -103,6 +104,7 @@ func (n *Notifier) Unsubscribe(key any, target any) {
 
 	verifAt("notifier.unsub.lock", n, 0)
 	n.mutex.Lock()
+	verifAt("notifier.unsub.locked", n, 0)
 	defer n.mutex.Unlock()
 
 	if subscribers := n.subscribers; subscribers != nil {
@@ -138,6 +140,7 @@ func (n *Notifier) PublishContext(ctx context.Context, key any, value any) {
 
 	verifAt("notifier.pub.rlock", n, 0)
 	n.mutex.RLock()
+	verifAt("notifier.pub.rlocked", n, 0)
 	defer n.mutex.RUnlock()
 
 	keySubscribers := n.subscribers[key]
